@@ -270,10 +270,17 @@ theorem xattr_record_index (w : XWriter) (hk : w.kvStart ≤ w.pairs.length) (hb
         ∧ (endSet w).1.keys = w.keys ∧ (endSet w).1.values = w.values) :=
   endSet_spec w hk hb
 
--- the same two pairs added in the other order: sorted, found equal to block 0, stored once
-example : (endSet { keys := [[1], [2]], values := [([7], 2), ([8], 2)], pairs := [(0, 0), (1, 1), (1, 1), (0, 0)], kvStart := 2,
-    blocks := [(0, 2)] }) = ({ keys := [[1], [2]], values := [([7], 2), ([8], 2)], pairs := [(0, 0), (1, 1)], kvStart := 2,
-    blocks := [(0, 2)] }, 0) := by decide
+/-- a writer in the middle of its second set: the same two pairs as block 0, added in the other order -/
+def exampleXWriter : XWriter where
+  keys := [[1], [2]]
+  values := [([7], 2), ([8], 2)]
+  pairs := [(0, 0), (1, 1), (1, 1), (0, 0)]
+  kvStart := 2
+  blocks := [(0, 2)]
+
+-- sorted, found equal to block 0, stored once: index 0, the pair array shrinks back
+example : (endSet exampleXWriter).2 = 0 ∧ (endSet exampleXWriter).1.pairs = [(0, 0), (1, 1)]
+    ∧ (endSet exampleXWriter).1.blocks = [(0, 2)] := by decide
 
 /-- **Index safety of `locations[]`** in the (repaired) `write_id_table`: every store has an index below the number
 of slots `alloc_location_table` provided — for every number of sets, multiples of 512 included, and every block
